@@ -71,6 +71,8 @@ type ruCase struct {
 }
 
 type ruIn struct {
+	SrcPw string   `json:"src_pw"` // credentials of the two servers (C19 runs this family with its sentinel passwords)
+	TgtPw string   `json:"tgt_pw"`
 	Seed  int64    `json:"seed"`
 	Trace string   `json:"trace"`
 	Dir   string   `json:"dir"`
@@ -93,8 +95,8 @@ func ruRun(in []byte) (interface{}, error) {
 	for ci := range cfg.Cases {
 		c := &cfg.Cases[ci]
 		now := func() int64 { return ruNow }
-		src := mredis.New(mredis.Options{Now: now})
-		tgt := mredis.New(mredis.Options{Now: now, Version: c.Cfg.TargetVersion})
+		src := mredis.New(mredis.Options{Now: now, Password: cfg.SrcPw})
+		tgt := mredis.New(mredis.Options{Now: now, Version: c.Cfg.TargetVersion, Password: cfg.TgtPw})
 		saddr, err := src.Listen()
 		if err != nil {
 			return nil, err
@@ -172,7 +174,7 @@ func ruRun(in []byte) (interface{}, error) {
 		conf.Options.SourceAddressList = []string{saddr}
 		conf.Options.TargetAddressList = []string{taddr}
 		conf.Options.SourceAuthType, conf.Options.TargetAuthType = "auth", "auth"
-		conf.Options.SourcePasswordRaw, conf.Options.TargetPasswordRaw = "", ""
+		conf.Options.SourcePasswordRaw, conf.Options.TargetPasswordRaw = cfg.SrcPw, cfg.TgtPw
 		conf.Options.SourceTLSEnable, conf.Options.TargetTLSEnable = false, false
 		conf.Options.TargetType = "standalone"
 		conf.Options.ScanSpecialCloud = ""
